@@ -34,13 +34,19 @@ def external_eval(prob, infills, order_rng=None, batch=1):
     if order_rng is not None:
         order_rng.shuffle(order)
     F = np.empty((n, prob.n_obj)); G = np.empty((n, prob.n_ieq_constr)) if prob.n_ieq_constr else None
+    H = np.empty((n, prob.n_eq_constr)) if prob.n_eq_constr else None
     for s in range(0, n, batch):
         idx = order[s:s + batch]
         out = prob.evaluate(X[idx], return_as_dictionary=True)
         F[idx] = out["F"]
         if G is not None:
             G[idx] = out["G"]
-    static = StaticProblem(prob, F=F, G=G) if G is not None else StaticProblem(prob, F=F)
+        if H is not None:
+            H[idx] = out["H"]
+    kw = {"F": F}
+    if G is not None: kw["G"] = G
+    if H is not None: kw["H"] = H
+    static = StaticProblem(prob, **kw)
     Evaluator().eval(static, infills)
 
 
